@@ -117,17 +117,17 @@ def InResend (c : Conn) : Prop :=
   (c.state = st_RESENDREQ_HANDLING ∨ c.state = st_RESENDREQ_AWAITING) ∧ c.sock = true
 
 /-- ONE `send_msg` of a message that keeps its own number `k` (SequenceReset, or PossDupFlag=Y with a
-type other than TestRequest): succeeds, journals the frame under `k` (all rows are below `k`), writes
-it, leaves the counter alone. -/
-theorem sendMsg_keep (env : Env) (m : Msg) (c : Conn) (k : Int) (v : String)
+type other than TestRequest): succeeds, journals the frame under `k` (between the rows below `k` and the
+rows above `k`; the number is free), writes it, leaves the counter alone. -/
+theorem sendMsg_keep_mid (env : Env) (m : Msg) (c : Conn) (k : Int) (v : String) (l1 l2 : Rows)
     (hin : InResend c)
     (hkeep : m.mtype = mSequenceReset ∨
       (m.mtype ≠ mSequenceReset ∧ m.mtype ≠ mTestRequest ∧ m.get? tPossDupFlag = some "Y"))
     (h34 : m.get? tMsgSeqNum = some v) (hv : pyInt v = some k)
     (hlat : frameLatin1 (buildFrame c.sess env.stamp m k) = true)
-    (hlt : Rows.AllLt k c.journal.out) :
+    (hout : c.journal.out = l1 ++ l2) (hlt : Rows.AllLt k l1) (hgt : Rows.AllGt k l2) :
     sendMsg env m c =
-      ⟨.ok (), withOut c (c.journal.out ++ [(k, buildFrame c.sess env.stamp m k)]) k,
+      ⟨.ok (), withOut c (l1 ++ [(k, buildFrame c.sess env.stamp m k)] ++ l2) k,
         [.write (buildFrame c.sess env.stamp m k)]⟩ := by
   obtain ⟨hst, hsock⟩ := hin
   have hgate : sendGate m c = ⟨.ok (), c, []⟩ := by
@@ -150,8 +150,23 @@ theorem sendMsg_keep (env : Env) (m : Msg) (c : Conn) (k : Int) (v : String)
   rw [M.bind_ok hgate]
   unfold sendCore
   simp only [M.bind_apply, M.get_apply, hty, Bool.false_and, Bool.false_eq_true, if_false, hseq, hlat,
-    Bool.not_true, Journal.persist, Rows.insert_append k _ _ hlt, Option.map_some, M.modify_apply, hsock,
-    M.emit_apply, List.nil_append]
+    Bool.not_true, Journal.persist, hout, Rows.insert_mid k _ _ _ hlt hgt, Option.map_some,
+    M.modify_apply, hsock, M.emit_apply, List.nil_append]
   simp [withOut, hsock]
+
+/-- the same when all rows are below `k` -/
+theorem sendMsg_keep (env : Env) (m : Msg) (c : Conn) (k : Int) (v : String)
+    (hin : InResend c)
+    (hkeep : m.mtype = mSequenceReset ∨
+      (m.mtype ≠ mSequenceReset ∧ m.mtype ≠ mTestRequest ∧ m.get? tPossDupFlag = some "Y"))
+    (h34 : m.get? tMsgSeqNum = some v) (hv : pyInt v = some k)
+    (hlat : frameLatin1 (buildFrame c.sess env.stamp m k) = true)
+    (hlt : Rows.AllLt k c.journal.out) :
+    sendMsg env m c =
+      ⟨.ok (), withOut c (c.journal.out ++ [(k, buildFrame c.sess env.stamp m k)]) k,
+        [.write (buildFrame c.sess env.stamp m k)]⟩ := by
+  have := sendMsg_keep_mid env m c k v c.journal.out [] hin hkeep h34 hv hlat (by simp) hlt
+    (by intro p hp; simp at hp)
+  simpa using this
 
 end AsyncFix.Session.C06
